@@ -47,6 +47,7 @@ Set(w, env, n, v) == [w EXCEPT !.store[env[n]] = v]
 \* value expressions -> [v, w]   (evaluation order and effects as in Go)
 \*   lit(v) var(n) add(n,d)    obs(id,n) = r.V(id, n): logs <<"v", id, value>>
 \*   neg(e) = -e   paren(e) = (e)   w1(e) = r.W(e): a ONE-argument call, logs <<"w", value>>
+\*   b1(e) = r.B(e): a one-argument call that panics with "boom"
 RECURSIVE EvalV(_, _, _)
 EvalV(ve, env, w) ==
   CASE ve.k = "lit" -> [v |-> ve.v, w |-> w]
@@ -57,6 +58,8 @@ EvalV(ve, env, w) ==
     [] ve.k = "paren" -> EvalV(ve.e, env, w)
     [] ve.k = "w1" -> LET r == EvalV(ve.e, env, w) IN
                       IF Panicked(r.w) THEN r ELSE [v |-> r.v, w |-> Log(r.w, <<"w", r.v>>)]
+    [] ve.k = "b1" -> LET r == EvalV(ve.e, env, w) IN            \* r.B(e): a one-argument call that panics
+                      IF Panicked(r.w) THEN r ELSE [v |-> r.v, w |-> [r.w EXCEPT !.panic = "boom"]]
 
 \* Collections: every generator instance owns the local collections that range loops
 \* iterate over (declared in the function's prolog by the renderer):
